@@ -68,6 +68,11 @@ Fixpoint unfold2_graph (np : list (N * N)) (fuel : nat) (h : heap) (chain : list
   end.
 Definition unfold2_root (np : list (N * N)) (h : heap) (g : nat) : gtree := unfold2_graph np (ser_fuel h) h [] g.
 
+(* a function input receives its payload through the function's value_info BY NAME, and an empty name never
+   gets an entry: the payload of an empty-named function input is not part of the serialized form *)
+Definition fn_in_desc (np : list (N * N)) (h : heap) (v : nat) : vdesc :=
+  let d := vdesc_of np h v in
+  if N.eqb (vd_name d) 0 then mkVD 0 (vd_named d) 0 (vd_out d) else d.
 Definition unfold2_function (np : list (N * N)) (h : heap) (f : func) : ftree :=
   match getg h (f_graph f) with
   | None => FBad
@@ -77,7 +82,7 @@ Definition unfold2_function (np : list (N * N)) (h : heap) (f : func) : ftree :=
     | [] =>
       let '(nts, lvl) := unfold2_nodes np h (unfold2_graph np (ser_fuel h) h) [] (gdefs h z) (g_nodes z) in
       FT (f_id f) (f_tok f)
-         (map (vdesc_of np h) (g_inputs z))
+         (map (fn_in_desc np h) (g_inputs z))
          (ntrees_of nts)
          (map (fun v => (find_ref v [lvl] 0, vd_name (vdesc_of np h v), vd_named (vdesc_of np h v))) (g_outputs z))
     end
@@ -208,6 +213,9 @@ Definition wf2_f (F : ftree) : bool :=
     let rest := skipn (length ins) D in
     let outn := map (fun o => snd (fst o)) outs in
     wf2_ins inn outn ins 0
+    (* every input of a name carries the payload of the LAST value_info entry of that name (none: 0) *)
+    && forallb (fun d => N.eqb (vd_pay d) (match vi_lookup (vd_name d) (flat_map fn_vi ins) with
+                                           | Some i => vi_pay i | None => 0%N end)) ins
     && nodup_N rest && forallb (fun k => negb (memN k inn)) rest
     && match wf2_ns [] D outn nodes with
        | None => false
